@@ -124,3 +124,10 @@ package bam
 //@   requires br.c != nil ==> (0 <= br.c.End.File && br.c.End.File < 140737488355328)
 //@ func vOffset
 //@   inline
+
+// ReadIndex: magic and reference count, then the body through
+// internal.ReadIndex (under its own contract).
+//@ func ReadIndex
+//@   mode bv
+//@   props C11
+//@   decoder
